@@ -843,8 +843,23 @@ def check_balance(scn, res):
     return viols
 
 
+def check_no_crash(scn, res):
+    """No scenario of the C07 family scripts an exception: a filter that dies of one was handed something the library itself refuses
+    (a balanced-sources joiner given two workers' frames at once raises 'duplicate topic': a mixed set caught by the library's own check)."""
+
+    viols    = []
+    scripted = {f['name'] for f in scn['filters'] if any(x.get('what') in ('raise', 'interrupt', 'sysexit') for x in f.get('faults', ()))}
+
+    for e in res.log:
+        if e['ev'] == 'end' and e['how'] == 'raised' and e.get('exc') not in ('HarnessError', 'Killed', 'Divergence') and e['f'] not in scripted:
+            viols.append({'signature': f'C07/filter-died-{e.get("exc")}/{family(scn)}',
+                          'what': f'[{scn.get("name")}] {e["f"]} ended with {e.get("exc")}: {e.get("msg")} at {e["t"]} ms', 'detail': None})
+
+    return viols
+
+
 def oracle_c07(scn, res):
-    return check_balance(scn, res) + check_order(scn, res), outcome(res)
+    return check_balance(scn, res) + check_order(scn, res) + check_no_crash(scn, res), outcome(res)
 
 
 def oracle_c05_any(scn, res):
